@@ -13,6 +13,7 @@ Env0 == [v |-> IntC(1), G |-> IntC(2), C |-> IntC(3), D |-> IntC(4), M |-> IntC(
 TInit == l = 1 /\ e2 = Env0 /\ b2 = <<>>
 ApplyAct(a, en) == CASE a.act = "Rebind" -> [en EXCEPT ![a.slot] = a.val]
                   [] a.act = "DelGlobal" -> [en EXCEPT !.G = Deleted]
+                  [] a.act = "DelClosure" -> [en EXCEPT !.v = Deleted]
                   [] OTHER -> en
 Clauses(r, bs) ==
     LET count == Len(r.emitted) = Len(bs)
